@@ -536,6 +536,8 @@ class Recorder:
                     "executable": sorted(self.label_order(o) for o in b.strategy_orders(st, order_status=[OS.EXECUTABLE])),
                     "complete": sorted(self.label_order(o) for o in b.strategy_orders(st, order_status=[OS.EXECUTION_COMPLETE])),
                     "matched": sorted(self.label_order(o) for o in b.strategy_orders(st, matched_only=True)),
+                    "notonlymatched": sorted(self.label_order(o) for o in b.strategy_orders(st, matched_only=False)),      # an explicit False filters nothing
+                    "exec_matched": sorted(self.label_order(o) for o in b.strategy_orders(st, order_status=[OS.EXECUTABLE], matched_only=True)),
                     "all": sorted(self.label_order(o) for o in b.strategy_orders(st)),
                 }
             out[mid] = {"v": ent, "f": filt, "n": len(b)}
